@@ -99,7 +99,7 @@ func shaHex(b []byte) string {
 
 // rawPost writes an HTTP/1.1 request byte by byte so that repeated headers, odd
 // casing and exact values are under the harness's control.
-func rawPost(addr, target string, hs []wireHeader, body []byte) (int, error) {
+func rawPost(addr, target string, hs []wireHeader, body []byte, chunks ...int) (int, error) {
 	conn, err := net.DialTimeout("tcp", addr, 2*time.Second)
 	if err != nil {
 		return 0, err
@@ -107,12 +107,35 @@ func rawPost(addr, target string, hs []wireHeader, body []byte) (int, error) {
 	defer conn.Close()
 	_ = conn.SetDeadline(time.Now().Add(10 * time.Second))
 	var b bytes.Buffer
-	fmt.Fprintf(&b, "POST %s HTTP/1.1\r\nHost: hookaido.test\r\nContent-Length: %d\r\nConnection: close\r\n", target, len(body))
+	if len(chunks) > 0 {
+		// no declared length: chunked transfer coding with the given chunk sizes (cycled)
+		fmt.Fprintf(&b, "POST %s HTTP/1.1\r\nHost: hookaido.test\r\nTransfer-Encoding: chunked\r\nConnection: close\r\n", target)
+	} else {
+		fmt.Fprintf(&b, "POST %s HTTP/1.1\r\nHost: hookaido.test\r\nContent-Length: %d\r\nConnection: close\r\n", target, len(body))
+	}
 	for _, h := range hs {
 		fmt.Fprintf(&b, "%s: %s\r\n", h.Name, h.Value)
 	}
 	b.WriteString("\r\n")
-	b.Write(body)
+	if len(chunks) > 0 {
+		rest := body
+		for i := 0; len(rest) > 0; i++ {
+			n := chunks[i%len(chunks)]
+			if n < 1 {
+				n = 1
+			}
+			if n > len(rest) {
+				n = len(rest)
+			}
+			fmt.Fprintf(&b, "%x\r\n", n)
+			b.Write(rest[:n])
+			b.WriteString("\r\n")
+			rest = rest[n:]
+		}
+		b.WriteString("0\r\n\r\n")
+	} else {
+		b.Write(body)
+	}
 	if _, err := conn.Write(b.Bytes()); err != nil {
 		// the server may already have answered 413 and closed
 	}
@@ -277,7 +300,7 @@ defaults { egress { https_only off
 			body := genBody(r, eff)
 			over := false
 			if r.Chance(0.12) {
-				body = r.Bytes(eff + 1)
+				body = r.Bytes(eff + vlib.Pick(r, []int{1, 1, 2, 4096}))
 				over = true
 			}
 			if ci == 0 && k > 3 && !over && len(body) > 70000 {
@@ -291,7 +314,15 @@ defaults { egress { https_only off
 				failFirst[marker] = r.Intn(3)
 				smu.Unlock()
 			}
-			status, err := rawPost(ing.Listener.Addr().String(), route, hs, body)
+			var chunks []int
+			framing := "content_length"
+			if r.Chance(0.4) {
+				framing = "chunked"
+				for n := r.Range(1, 4); n > 0; n-- {
+					chunks = append(chunks, vlib.Pick(r, []int{1, 7, 512, 1024, 4096, 65536, 1 << 20}))
+				}
+			}
+			status, err := rawPost(ing.Listener.Addr().String(), route, hs, body, chunks...)
 			c.Count("evaluations", 1)
 			if err != nil && !over {
 				c.Inconclusive("C07 raw post failed: " + err.Error())
@@ -308,10 +339,10 @@ defaults { egress { https_only off
 			case len(body) == 0:
 				sizeCls = "empty"
 			}
-			c.Distinct("nontrivial", fmt.Sprintf("%s:ingress:%s:%s:status=%d", backend, route, sizeCls, status))
+			c.Distinct("nontrivial", fmt.Sprintf("%s:ingress:%s:%s:%s:status=%d", backend, route, sizeCls, framing, status))
 			if over {
 				if status != 413 && err == nil {
-					viol("oversized_body_not_refused", fmt.Sprintf("body of max_body+1 = %d bytes answered %d", len(body), status), nil, marker)
+					viol("oversized_body_not_refused", fmt.Sprintf("body of %d bytes (max_body %d, %s) answered %d", len(body), eff, framing, status), map[string]string{"framing": framing}, marker)
 				}
 				continue
 			}
